@@ -27,7 +27,7 @@ type raceTask struct {
 	errs    []string
 	foreign []string
 	done    bool
-	slice   int // remaining ticks before the next scheduling point
+	slice   int    // remaining ticks before the next scheduling point
 	gid     uint64 // id of the task's goroutine (sync-point hooks may also be called by goroutines that are not tasks)
 	held    int    // locks of the instrumented goja tree currently held by the task
 }
@@ -43,6 +43,7 @@ type raceSched struct {
 	ticks    int64
 	syncPts  int64 // lock acquisitions of goja code reached by tasks (instrumented build only)
 	syncSw   int64 // ... at which the schedule switched to another goroutine
+	spins    int64 // runtime.Gosched() calls of goja code reached by tasks
 }
 
 var raceCur *raceSched // the scheduler of the run in progress (one run at a time per process)
@@ -104,6 +105,30 @@ func (s *raceSched) yield(self *raceTask, finished bool) {
 	}
 }
 
+// yieldToOther passes the baton to a task other than self (tape-chosen) if there is one that has not finished.
+//
+//go:norace
+func (s *raceSched) yieldToOther(self *raceTask) {
+	var others []*raceTask
+	for _, t := range s.tasks {
+		if !t.done && t != self {
+			others = append(others, t)
+		}
+	}
+	if len(others) == 0 {
+		return
+	}
+	next := others[s.nextDec()%len(others)]
+	next.slice = 1 + s.nextDec()%24
+	if len(s.trace) < 4096 {
+		s.trace = append(s.trace, uint16(next.id), uint16(next.slice))
+	}
+	s.switches++
+	s.cur = next.id
+	next.bt.signal()
+	self.bt.wait()
+}
+
 //go:norace
 func raceTick(r *goja.Runtime) {
 	s := raceCur
@@ -152,6 +177,14 @@ func raceSyncHook(kind int) {
 				s.syncSw++
 			}
 		}
+	case 3:
+		// runtime.Gosched(): the task waits for another goroutine to make progress; in a serialised execution it has to
+		// give up the baton or it would spin for ever
+		s.spins++
+		if s.spins > 200000 {
+			panic("racesim: a task keeps calling runtime.Gosched() and no other task makes the awaited progress")
+		}
+		s.yieldToOther(t)
 	}
 }
 
@@ -533,6 +566,9 @@ func (e *racesim) Run(t *core.Tape, want bool) *core.Result {
 	if syncPointsBuilt {
 		res.Count("lock-acquisition-scheduling-points", sched.syncPts)
 		res.Count("goroutine-switches-at-lock-acquisitions", sched.syncSw)
+		if sched.spins > 0 {
+			res.Count("gosched-calls-in-goja-code", sched.spins)
+		}
 	}
 	res.Count("tasks", int64(ntasks))
 	res.Count("values-published-through-mailbox", int64(len(mailbox.box)))
@@ -586,7 +622,8 @@ func (e *racesim) Run(t *core.Tape, want bool) *core.Result {
 
 func init() {
 	core.Register(&core.Spec{
-		Property: "C16", EngineName: "racesim (race build)", Race: true,
+		HangIsInfra: true,
+		Property:    "C16", EngineName: "racesim (race build)", Race: true,
 		New:       func(tier string) core.Engine { return &racesim{tier: tier} },
 		QuickRuns: 4000, QuickCapS: 90, ThoroughRun: 400000, ThoroughCap: 1500,
 		Rule: "a case = (generated program biased to constructs that embed mutable-looking objects: regex literals of both engines incl. stateful g/y, tagged templates, classes with private names and static blocks, eval/with/arguments functions, generators, rendered error stacks; 2-16 goroutines each with its own Runtime running the ONE compiled Program 1-3 times; 2-6 shared primitive values: lazily scanned imported Go strings, concatenations, UTF-16 strings, symbols, BigInts, numbers; a tape-chosen interleaving at VM-instruction granularity); distinct = distinct (task count, value kinds, realised schedule hash); non-trivial = at least two goroutine switches happened while tasks were running",
